@@ -141,6 +141,23 @@ func init() {
 			}
 			return []Val{{K: VTerm, T: t, Typ: a[0].Typ}}
 		},
+		"bytes.Repeat": func(x *Exec, fr *Frame, st *State, in ssa.Instruction, a []Val) []Val {
+			// result: count copies of b; modelled exactly when len(b) is the literal 1 (the only use in avfs)
+			b, count := a[0], a[1].T
+			x.safety(fr, st, in, "repeat-count", app(SBool, ">=", count, IntLit(0)))
+			r := st.newObject("bytes.repeat")
+			sl := types.NewSlice(types.Typ[types.Uint8])
+			names, as := st.elemArrs(types.Typ[types.Uint8])
+			if n, ok := parseIntLit(b.Parts[2].T); ok && n.Int64() == 1 {
+				arr := st.hget(names[0], as[0])
+				e0 := Select(Select(arr, b.Parts[0].T), b.Parts[1].T)
+				st.hset(names[0], Store(arr, r, Term{fmt.Sprintf("((as const (Array Int Int)) %s)", e0.S), SArr(SInt, SInt)}))
+				return []Val{{K: VSlice, Parts: []Val{TV(r), TV(IntLit(0)), TV(count), TV(count)}, Typ: sl}}
+			}
+			ln := x.enc.Fresh("repeat.len", SInt)
+			st.assume(app(SBool, ">=", ln, IntLit(0)))
+			return []Val{{K: VSlice, Parts: []Val{TV(r), TV(IntLit(0)), TV(ln), TV(ln)}, Typ: sl}}
+		},
 		"reflect.ValueOf": func(x *Exec, fr *Frame, st *State, in ssa.Instruction, a []Val) []Val {
 			// the reflect.Value is represented by the interface value it was made from
 			return []Val{{K: VStruct, Parts: []Val{a[0]}, Typ: in.(ssa.CallInstruction).Common().Signature().Results().At(0).Type()}}
